@@ -6,6 +6,7 @@ import OFV.Model.C14Swap
 import OFV.Spec.C14
 import OFV.Proofs.C14Swap
 import OFV.Proofs.C14Gates
+import OFV.Proofs.C14Ffft
 
 namespace OFV.C14
 open OFV.Model.C14 OFV.Spec.C14
@@ -55,6 +56,30 @@ example : swapOk 3 [2, 1, 0] [(0, 1, 0, 1), (0, 2, 1, 2)] = false := by decide
 example : (swapNetwork 4 false).2 =
     [(0, 1, 0, 1), (2, 3, 2, 3), (0, 3, 1, 2), (1, 3, 0, 1), (0, 2, 2, 3), (1, 2, 1, 2)] := by decide
 example : (swapNetwork 4 true).1 = [3, 2, 1, 0] := by decide
+
+/-! ## ffft: Cooley–Tukey index recursion (partial: exponents, not the unitary) -/
+
+/-- `ffft_spec_partial`.  For EVERY factor list (prime or not, any order) the index recursion of
+`_ffft` — `_permute` with `i ↦ (i % ny)·nx + i / ny`, the `_TwiddleGate(x·y, n)` exponents and the two
+layers of sub-transforms — produces the discrete Fourier exponent table: `ctExp factors k j ≡ k·j (mod n)`,
+`n = ∏ factors`.  Full statement (NOT proved): the circuit unitary `U` of `ffft` satisfies
+`U a†_k U⁻¹ = n^{-1/2} Σ_j e^{-2πi k j / n} a†_j`; what is missing is that every emitted gate
+(`F0`, `_TwiddleGate`, the FSWAP permutation networks, the prime-size `bogoliubov_transform`) acts on the
+single-particle coefficients as `ctExp` assumes — checked numerically by the harness (oracle). -/
+theorem ffft_spec_partial (factors : List Nat) (k j : Nat) (hj : j < listProd factors) :
+    ctExp factors k j % listProd factors = (k * j) % listProd factors :=
+  ctExp_modEq factors k j hj
+
+/-- the factor list the Model uses (ascending trial division, mirrors `factorint`) multiplies to `n`,
+so the table exported to the harness is the DFT table for every `n ≥ 1` -/
+theorem ffft_table_is_dft (n k j : Nat) (hn : 1 ≤ n) (hj : j < n) :
+    ctExp (primeFactors n n) k j % n = (k * j) % n := by
+  have hp := primeFactors_prod n n (Nat.le_refl n) hn
+  have := ffft_spec_partial (primeFactors n n) k j (by rw [hp]; exact hj)
+  rwa [hp] at this
+
+example : ctExp [2, 3] 4 5 = 8 ∧ 8 % 6 = (4 * 5) % 6 := by decide
+example : primeFactors 12 12 = [2, 2, 3] := by decide
 
 /-! ## gate algebra (all rational points `(c, s)` of the unit circle; `cr2 p`, `an2 p` are the
 Jordan–Wigner matrices of `a†_p`, `a_p` on two modes computed from the Spec action `actF`) -/
